@@ -188,7 +188,8 @@ inline string run_step(const GOp& op, Image& img, Model& m, string& detail, int 
       return "wrong-colour";
     }
     if (!(got.p[i] == after.p[i])) {
-      detail = vf::fmt("pixel (%zu,%zu): image ", i % after.w, i / after.w) + got.dump() + ", model " + after.dump() + ", before " + m.dump();
+      detail = vf::fmt("pixel (%zu,%zu) is %s, model %s, before %s: image ", i % after.w, i / after.w, got.px_str(i).c_str(), after.px_str(i).c_str(), i < m.p.size() ? m.px_str(i).c_str() : "-") + got.dump() +
+               ", model " + after.dump() + ", before " + m.dump();
       return "differs-from-model";
     }
   }
@@ -203,7 +204,10 @@ struct BlitSrc {  // a source (and mask) image that lives as long as the operati
   BlitSrc(const Model& s, const Model& m) : spat(s), mpat(m), simg(make_image(s)), mimg(make_image(m)) {}
 };
 
-inline GOp op_blit(int v, std::shared_ptr<BlitSrc> src, Call c) {
+// exact_wide (round 3): compare colours on 16/32/64-bit canvases too - only meaningful for the variants whose rule is a plain copy /
+// caller-defined function at equal channel widths (colour-key, mask image, custom_blit(uint64)), see blit_rule_exact_at_any_width()
+inline bool blit_rule_exact_at_any_width(int v) { return v == V_MASK_KEY || v == V_MASK_KEY32 || v == V_MASK_DST || v == V_MASK_DST32 || v == V_MASK_IMG || v == V_CUSTOM64; }
+inline GOp op_blit(int v, std::shared_ptr<BlitSrc> src, Call c, bool exact_wide = false) {
   GOp op;
   op.key = vkey[v];
   op.name = vf::fmt("%s(source %dx%d %s %d-bit%s; x=%lld, y=%lld, w=%lld, h=%lld, sx=%lld, sy=%lld)", vname[v], src->spat.w, src->spat.h, src->spat.alpha ? "rgba" : "rgb", src->spat.cw,
@@ -220,7 +224,7 @@ inline GOp op_blit(int v, std::shared_ptr<BlitSrc> src, Call c) {
   };
   op.model = [=](const Model& before, Model& after, StepOut& so) {
     Expect e;
-    bool colour = before.cw == 8 && src->spat.cw == 8;
+    bool colour = (before.cw == 8 && src->spat.cw == 8) || (exact_wide && before.cw == src->spat.cw && blit_rule_exact_at_any_width(v));
     expect_blit(v, before, src->spat, v == V_MASK_IMG ? &src->mpat : nullptr, c, colour, e);
     after = e.canvas;
     if (!colour) so.dc = e.aff;
